@@ -257,6 +257,10 @@ InvTwinEqualsRobot == (allok /\ tracked) =>
                                /\ Robot.vol = S.vol
                                \* the robot cannot know what a stand-alone dispense declares as composition
                                /\ (nodisp /\ ~Robot.unknown) => Robot.comp = S.comp
+\* C05 on supports: which components are present in a non-empty cavity is exactly what the records moved there
+InvSupport == (allok /\ tracked /\ nodisp) =>
+                 LET rs == RunSup(T, S0.vol, [k \in {P, Q} |-> [i \in 1..Len(S0.comp[k]) |-> CNames(S0.comp[k][i])]], wl) IN
+                 \A k \in {P, Q} : \A i \in 1..Len(S.vol[k]) : S.vol[k][i] > 0 => CNames(S.comp[k][i]) = rs.sup[k][i]
 \* C03: up to and including the first rejected operation (however it aborted), replaying the
 \* worklist accumulated so far stays within all limits
 InvReplayWithinLimits == (prevok /\ tracked) => Robot.err = ""
